@@ -289,6 +289,9 @@ class AstToSqlVisitor(visitor.NodeVisitor):
     def sqlfunc_concat(self, *args: ast._Node) -> str:
         ":meta private:"
         args_sql = [self.visit(arg) for arg in args]
+        # '||' associates to the left, keep an explicitly right-nested concat grouped:
+        if isinstance(args[1], ast.Call) and args[1].func.name.lower() == "concat":
+            args_sql[1] = f"({args_sql[1]})"
         return f"{args_sql[0]} || {args_sql[1]}"
 
     def _to_pattern(self, arg: ast._Node, prefix: str = "", suffix: str = "") -> str:
